@@ -145,14 +145,25 @@ Proof.
       * apply ordering_antisym.
       * apply ordering_tri.
     + apply ordering_tri; assumption.
-  - apply ordering_ref_tri; assumption.
+  - destruct (s_desc s && match s_keys s with [] => true | _ => false end).
+    + apply (tri_flip cells_ok (ordering_ref (s_cols s))); try assumption.
+      * apply ordering_ref_antisym.
+      * apply ordering_ref_tri.
+    + apply ordering_ref_tri; assumption.
 Qed.
 
 (** order laws of the row comparison *)
 Lemma sort_cmp_antisym : forall s a b, sort_cmp s b a = CompOpp (sort_cmp s a b).
 Proof.
   intros s a b. unfold sort_cmp.
-  rewrite (ordering_ref_antisym (s_cols s) a b).
+  assert (T : (if s_desc s && match s_keys s with [] => true | _ => false end
+               then ordering_ref (s_cols s) a b else ordering_ref (s_cols s) b a)
+            = CompOpp (if s_desc s && match s_keys s with [] => true | _ => false end
+               then ordering_ref (s_cols s) b a else ordering_ref (s_cols s) a b)).
+  { destruct (s_desc s && match s_keys s with [] => true | _ => false end).
+    - apply (ordering_ref_antisym (s_cols s) b a).
+    - apply (ordering_ref_antisym (s_cols s) a b). }
+  cbv zeta. rewrite T.
   destruct (s_desc s).
   - rewrite (ordering_antisym (s_keys s) b a). apply cmp_then_opp.
   - rewrite (ordering_antisym (s_keys s) a b). apply cmp_then_opp.
@@ -329,19 +340,39 @@ Lemma type_order :
 Proof. intros b z f s d u l o. repeat split; reflexivity. Qed.
 
 (** 6. the implicit sort after an aggregation: by the aggregate columns,
-    descending; ascending with _timeslice first when that is a key *)
+    descending; ascending, with the time column first, when the bare column
+    _timeslice is a key: that column is named by the header of the first such key *)
+Lemma find_existsb : forall {A} (f : A -> bool) l,
+  existsb f l = match find f l with Some _ => true | None => false end.
+Proof.
+  intros A f l. induction l as [|x t IH]; cbn [existsb find]; [reflexivity|].
+  destruct (f x); [reflexivity|exact IH].
+Qed.
+
 Lemma implicit_sort_plain : forall fns keys,
   existsb (fun ke => match snd ke with ECol h [] => str_eqb h (lit "_timeslice") | _ => false end) keys = false ->
   implicit_sort fns keys = SSort (map (fun nf => ECol (fst nf) []) fns) true.
 Proof.
-  intros fns keys H. unfold implicit_sort. cbv zeta. rewrite H. reflexivity.
+  intros fns keys H. unfold implicit_sort. cbv zeta. rewrite find_existsb in H.
+  destruct (find _ keys); [discriminate H|reflexivity].
+Qed.
+
+Lemma implicit_sort_timeslice_key : forall fns keys ke,
+  find (fun ke => match snd ke with ECol h [] => str_eqb h (lit "_timeslice") | _ => false end) keys = Some ke ->
+  implicit_sort fns keys = SSort (ECol (fst ke) [] :: map (fun nf => ECol (fst nf) []) fns) false.
+Proof.
+  intros fns keys ke H. unfold implicit_sort. cbv zeta. rewrite H. reflexivity.
 Qed.
 
 Lemma implicit_sort_timeslice : forall fns keys,
   existsb (fun ke => match snd ke with ECol h [] => str_eqb h (lit "_timeslice") | _ => false end) keys = true ->
-  implicit_sort fns keys = SSort (ECol (lit "_timeslice") [] :: map (fun nf => ECol (fst nf) []) fns) false.
+  exists ke,
+    find (fun ke => match snd ke with ECol h [] => str_eqb h (lit "_timeslice") | _ => false end) keys = Some ke /\
+    implicit_sort fns keys = SSort (ECol (fst ke) [] :: map (fun nf => ECol (fst nf) []) fns) false.
 Proof.
-  intros fns keys H. unfold implicit_sort. cbv zeta. rewrite H. reflexivity.
+  intros fns keys H. rewrite find_existsb in H.
+  destruct (find _ keys) as [ke|] eqn:E; [|discriminate H].
+  exists ke. split; [reflexivity|]. apply implicit_sort_timeslice_key. exact E.
 Qed.
 
 Print Assumptions sorter_perm.
